@@ -4,6 +4,7 @@ capture, API probes, subscribers, census, getter snapshots."""
 from __future__ import annotations
 
 import asyncio
+import functools
 import datetime
 import gc
 import hashlib
@@ -149,6 +150,58 @@ def census(loop, mine=()):
              if t is not cur and t not in mine and not t.done()]
     timers = [h for h in loop._scheduled if not h._cancelled]
     return tasks, timers
+
+
+def timer_owner(h):
+    """Who scheduled this TimerHandle: ('task', Task) for a sleep / timeout inside a task,
+    ('client', name) for a callback defined in pyairtouch, ('harness', name) for one defined
+    in vf.*, ('unknown', name) otherwise."""
+    import asyncio.timeouts
+    cb = h._callback
+    name = getattr(cb, "__qualname__", None) or repr(cb)
+    me = getattr(cb, "__self__", None)
+    if isinstance(me, asyncio.timeouts.Timeout):
+        return ("task", me._task) if me._task is not None else ("unknown", name)
+    if cb is asyncio.futures._set_result_unless_cancelled and h._args:
+        fut = h._args[0]
+        for c in (getattr(fut, "_callbacks", None) or []):
+            t = getattr(c[0], "__self__", None)
+            if isinstance(t, asyncio.Task):
+                return ("task", t)
+        return ("unknown", name)
+    mod = getattr(cb, "__module__", None) or ""
+    if me is not None:
+        mod = type(me).__module__
+    if isinstance(cb, functools.partial):
+        mod = getattr(cb.func, "__module__", "") or mod
+    if mod.startswith("pyairtouch"):
+        return ("client", name)
+    if mod.startswith("vf."):
+        return ("harness", name)
+    return ("unknown", name)
+
+
+def client_census(loop, harness_tasks):
+    """Tasks and timers alive that belong to the client: every task that is not the
+    harness's, and every timer scheduled from pyairtouch code or from such a task.
+    Returns (task names, timer names, unknown timer names)."""
+    cur = asyncio.current_task(loop)
+    tasks = [t for t in asyncio.all_tasks(loop)
+             if t is not cur and t not in harness_tasks and not t.done()]
+    timers, unknown = [], []
+    for h in loop._scheduled:
+        if h._cancelled:
+            continue
+        kind, who = timer_owner(h)
+        if kind == "task":
+            if who is not cur and who not in harness_tasks and not who.done():
+                c = who.get_coro()
+                timers.append("timer of task " + getattr(c, "__qualname__", repr(c)))
+        elif kind == "client":
+            timers.append(who)
+        elif kind == "unknown":
+            unknown.append(who)
+    return describe_tasks(tasks), sorted(timers), sorted(unknown)
 
 
 def describe_tasks(tasks):
